@@ -56,6 +56,8 @@ pub struct Backend {
     pub max_open_settled: AtomicU64, // C04: highest session count that persisted for 30 ms
     pub host: String, // address the listener binds (default 127.0.0.1; C07 uses 127.0.0.x aliases so that admin BAN <host> can tell servers apart)
     pub hang_match: Mutex<Option<String>>, // C07: a simple query containing this text is swallowed and never answered
+    pub reset_epoch: AtomicU64, // C02/C04: bumping it makes every open session close with a TCP RST (SO_LINGER 0) at its next idle poll; the listener stays up
+    pub slow_exact: Mutex<Option<(String, u64, u64)>>, // C01/C02: a simple query whose text IS this string is answered after ms, for the next `count` occurrences (the health check `;` carries no directive)
     pub busy: Mutex<BTreeMap<u64, String>>, // C10: session id -> the statement it is executing right now (reported in every `cancel` event)
     pub gates: Mutex<std::collections::HashSet<String>>, // C10: opened gates; a statement with /*mock:gate=NAME*/ is answered only after NAME was opened
     pub reply_segs: Mutex<Vec<usize>>, // C20: cut EVERY flush of this backend into TCP writes at these offsets (like the segs= directive, but per backend)
@@ -991,6 +993,7 @@ async fn session(be: Arc<Backend>, mut stream: TcpStream) {
 }
 
 async fn run_session(c: &mut Conn) -> String {
+    let epoch0 = c.be.reset_epoch.load(Ordering::SeqCst);
     loop {
         // C20: "noread" = the session stays open but does not read while the mode lasts
         while c.be.mode.load(Ordering::SeqCst) == MODE_NOREAD {
@@ -1004,6 +1007,10 @@ async fn run_session(c: &mut Conn) -> String {
                     let m = c.be.mode.load(Ordering::SeqCst);
                     if m == MODE_DOWN || m == MODE_REFUSE || m == MODE_DOWN_HELD {
                         return "backend down".into();
+                    }
+                    if c.be.reset_epoch.load(Ordering::SeqCst) != epoch0 {
+                        let _ = c.stream.set_linger(Some(std::time::Duration::from_secs(0)));
+                        return "reset by backend".into();
                     }
                 }
             }
@@ -1049,6 +1056,19 @@ async fn run_session(c: &mut Conn) -> String {
                 c.be.busy.lock().insert(c.s.id, q.clone()); // C10
                 c.log_msg(code, json!({"sql": q, "raw": hex(&raw)}));
                 let hm = c.be.hang_match.lock().clone();
+                let slow = {
+                    let mut g = c.be.slow_exact.lock();
+                    match g.as_mut() {
+                        Some((t, ms, n)) if *n > 0 && *t == q => {
+                            *n -= 1;
+                            Some(*ms)
+                        }
+                        _ => None,
+                    }
+                };
+                if let Some(ms) = slow {
+                    tokio::time::sleep(std::time::Duration::from_millis(ms)).await;
+                }
                 if mode == MODE_HANG || hm.map(|m| q.contains(&m)).unwrap_or(false) {
                     Flow::Hang
                 } else {
@@ -1383,6 +1403,8 @@ impl Backend {
             max_open_settled: AtomicU64::new(0),
             host: host.to_string(),
             hang_match: Mutex::new(None),
+            slow_exact: Mutex::new(None),
+            reset_epoch: AtomicU64::new(0),
             busy: Mutex::new(BTreeMap::new()),
             gates: Mutex::new(std::collections::HashSet::new()),
             reply_segs: Mutex::new(Vec::new()),
